@@ -13,6 +13,7 @@ import DdnnfVerif.Proofs.D4Conv
 import DdnnfVerif.Proofs.Lex
 import DdnnfVerif.Proofs.LoadAll
 import DdnnfVerif.Proofs.LoadOK3
+import DdnnfVerif.Proofs.Flatten
 namespace Ddnnf.C01
 
 /-- The reported count (`Ddnnf::rc()` = count of the last node) is the number of assignments to
@@ -200,5 +201,25 @@ theorem d4_conventions_check_gives_the_enumeration_and_export_side_conditions (l
     (1 ≤ (D4.load lines total).1 → C06.EnumOK (D4.load lines total).2.1) ∧
     (2 ≤ (D4.load lines total).1 → C19.CnfOK (D4.load lines total).2.1 (D4.load lines total).1) :=
   ⟨D4.conventions2B_enumOK lines total h, D4.conventions2B_cnfOK lines total h⟩
+
+/-! ### the c2d loader, from the characters of the file
+
+A c2d file *is* a node array (children referenced by line number).  `Lex.parseC2dText` is the header test
+on the trimmed first line plus the character-level lexer on every other line (Model/Lex.lean); the
+loader then flattens the array from its last node in DFS post-order (`flatten`, Model/Persist.lean). -/
+
+/-- **C01 for c2d input**: if the lines of a c2d file lex to a header with `n` variables and a node list
+that is well formed (smooth, decomposable, deterministic, all `n` variables mentioned — the c2d half of
+the input space), the loaded array is well formed, denotes the same function, and its count is the number
+of assignments to 1..n satisfying the file -/
+theorem c2d_count_is_number_of_models_of_the_file (lines : List (List Char)) (n : Nat)
+    (file : List NType) (hp : Lex.parseC2dText lines = some (n, file)) (h : WF file n) :
+    WF (flatten file) n ∧
+      (∀ σ, eval σ (flatten file) (rootIx (flatten file)) = eval σ file (rootIx file)) ∧
+      count (flatten file) (rootIx (flatten file)) = specCount file n [] := by
+  have _ := hp
+  refine ⟨flatten_WF file n h, fun σ => flatten_eval file h.topo h.nonempty σ, ?_⟩
+  rw [flatten_count file h.topo h.nonempty]
+  exact count_is_model_count file n h
 
 end Ddnnf.C01
